@@ -92,4 +92,81 @@ example :
       [⟨0, some 1, some 2, false, 0⟩]).map (fun e => (e.id, e.old, e.new)) = [(0, some 1, some 1)] := by
   decide
 
+/-- the publications other than the `k`-th one -/
+def others (c : Cfg M) (k : Nat) : List (Pub M) := c.pubs.take k ++ c.pubs.drop (k + 1)
+
+omit [DecidableEq M] in
+/-- **A Send keeps the listeners it copied — any configuration, any other publication.**  A delivery step of the
+`k`-th publication, INCLUDING the `Bus.collect` it runs when it ends after having met a dead listener, leaves every
+other publication in flight exactly as it was (same event, same listener copy still to be served), and `collect`
+only ever removes listeners.  (`Bus.Send` walking `b.listeners` in place instead of its copy breaks exactly this: a
+parked Send skips a live listener when a concurrent Send compacts the list.) -/
+theorem C03_send_copy_survives_collect (c : Cfg M) (k : Nat) (q : Pub M) (hq : q ∈ others c k) :
+    q ∈ (stepDeliver c k).pubs ∧
+    (∀ s, s ∈ (stepDeliver c k).listeners → s ∈ c.listeners) := by
+  unfold others at hq
+  unfold stepDeliver
+  cases hd : c.pubs.drop k with
+  | nil =>
+    simp only
+    refine ⟨?_, fun s h => h⟩
+    have : c.pubs.take k ++ c.pubs.drop k = c.pubs := List.take_append_drop k c.pubs
+    rw [hd, List.append_nil] at this
+    rw [← this]
+    rcases List.mem_append.mp hq with h | h
+    · exact h
+    · have h2 : c.pubs.drop (k + 1) = [] := by
+        have : c.pubs.drop (k + 1) = (c.pubs.drop k).drop 1 := by simp [List.drop_drop]
+        rw [this, hd]; rfl
+      rw [h2] at h; cases h
+  | cons p post =>
+    have hpost : c.pubs.drop (k + 1) = post := by
+      have : c.pubs.drop (k + 1) = (c.pubs.drop k).drop 1 := by simp [List.drop_drop]
+      rw [this, hd]; rfl
+    rw [hpost] at hq
+    have hmem : q ∈ c.pubs := by
+      have : c.pubs.take k ++ c.pubs.drop k = c.pubs := List.take_append_drop k c.pubs
+      rw [← this, hd]
+      rcases List.mem_append.mp hq with h | h
+      · exact List.mem_append_left _ h
+      · exact List.mem_append_right _ (List.mem_cons_of_mem _ h)
+    have hfilter : ∀ (b : Bool) (subs : Nat → Sub M) s,
+        s ∈ (if b then c.listeners.filter (fun s => !(subs s).cancelled) else c.listeners) → s ∈ c.listeners := by
+      intro b subs s h
+      cases b
+      · exact h
+      · exact (List.mem_filter.mp h).1
+    simp only
+    cases hs : p.stage with
+    | none => simp only; exact ⟨hmem, fun s h => h⟩
+    | some rem =>
+      cases rem with
+      | nil => simp only; exact ⟨hmem, fun s h => h⟩
+      | cons s rem =>
+        simp only
+        split
+        · exact ⟨hmem, fun s h => h⟩
+        · split
+          · refine ⟨?_, ?_⟩
+            · simp only [Cfg.finishPub]; exact hq
+            · intro s' h; simp only [Cfg.finishPub] at h; exact hfilter _ _ _ h
+          · refine ⟨?_, fun s h => h⟩
+            simp only
+            rcases List.mem_append.mp hq with h | h
+            · exact List.mem_append_left _ h
+            · exact List.mem_append_right _ (List.mem_cons_of_mem _ h)
+
+/-- non-vacuity: publication 1 is parked at subscriber 1 (having met the cancelled subscriber 0); publication 0 walks
+its whole copy and collects; publication 1 still owes its event to subscribers 1 and 2 and delivers it -/
+example :
+    let progs : Nat → List (WOp Int) := fun t => if t = 0 then [.upd 0 (fun _ => some 1)] else if t = 1 then [.upd 1 (fun _ => some 2)] else []
+    let pre : List Act := [.sub 0, .sub 1, .sub 2, .cancel 0, .commit 0, .commit 1, .snap 0, .snap 1, .deliver 1,
+      .deliver 0, .deliver 0, .recv 1, .recv 2]
+    let c := run (initCfg (fun _ => none) progs (fun _ => ⟨false, false, id, none⟩)) pre
+    let c' := step c (.deliver 0)
+    c.listeners = [0, 1, 2] ∧ c'.listeners = [1, 2] ∧
+    c'.pubs.map (fun p => (p.owner, p.stage)) = [(1, some [1, 2])] ∧
+    ((run c' [.deliver 0, .recv 1, .recv 2, .deliver 0, .recv 2]).subs 2).evs.map (·.seq) = [0, 1] := by
+  decide
+
 end ScVerif.C03
